@@ -222,6 +222,10 @@ class C12(Prop):
         bads = []
         for (chunks, pie, undef, unreach), (line, out, res, msyms) in pairs:
             if res is None:
+                # a text the assembler refuses: only as unsupported / undefined / redefined / syntax error, never by an assertion or
+                # a stray exception (every generated text is built from the supported vocabulary)
+                if out.startswith("err") and out.split()[1] not in ("UnsupportedAssemblyError", "UndefSymbolError", "MultipleDefinitionsError", "AsmSyntaxError"):
+                    bads.append(dict(what=f"assembling a text of the supported vocabulary raises {out.split()[1]}", input={"text": chunks[0], "pie": pie, "allow_undef": undef}, finding=None))
                 continue
             v = check_result(chunks[0], res, msyms, pie, unreach)
             if v:
